@@ -15,6 +15,8 @@ Correspondence streams (model = lean/Drv/C20.lean over Model.Schedule):
            of sampled days plus every entry time -1/0/+1 hundredth
   evalbad  the same for malformed input (unsorted lists, wildcard times,
            priority 0/17, missing calendar, empty choice, bad weekday/month)
+  runbad   timer runs of malformed configurations (the exceptions process_task lets escape,
+           the faulty-configuration gate): correspondence only
   run      a real LocalScheduleObject in a real Application under virtual
            time: creation, every timer firing, writes to weeklySchedule /
            exceptionSchedule, over several days incl. effective-period entry
@@ -284,16 +286,37 @@ def denotes(e, d):
                 return False
         elif 6 <= wp <= 9:
             # how many whole weeks lie between this day and the end of the month
-            n, x = 0, d
-            while not last_day(x):
-                x += datetime.timedelta(days=1)
-                n += 1
+            first_of_next = (d.replace(day=28) + datetime.timedelta(days=4)).replace(day=1)
+            n = (first_of_next - d).days - 1
             if n // 7 != wp - 6:
                 return False
         else:
             return None
         return dp == 255 or (1 <= dp <= 7 and d.isoweekday() == dp)
     return None
+
+
+def wf_end(p):
+    if p[:3] == [255, 255, 255]:
+        return True
+    if 255 in p[:3]:
+        return False
+    try:
+        datetime.date(p[0] + 1900, p[1], p[2])
+        return True
+    except ValueError:
+        return False
+
+
+def wf_entry(e):
+    """the entries the standard gives a meaning to (mirrors WFEntry of the Lean spec)"""
+    if e["k"] == "date":
+        return True
+    if e["k"] == "range":
+        return wf_end(e["s"]) and wf_end(e["e"])
+    if e["k"] == "wnd":
+        return e["v"][1] == 255 or 1 <= e["v"][1] <= 9
+    return False
 
 
 def latest(tvs, t):
@@ -316,31 +339,45 @@ def in_force(se, d):
     return None
 
 
-def ref_value(cfg, d, t):
-    """the value BACnet prescribes; 'out' outside the effective period; None = no opinion"""
+def ref_day(cfg, d):
+    """the value BACnet prescribes on day d as a function of the time;
+    'out' outside the effective period; None = no opinion"""
     eff = denotes({"k": "range", "s": cfg["eff"][0], "e": cfg["eff"][1]}, d)
     if eff is None:
-        return None
+        return lambda t: None
     if not eff:
-        return "out"
-    cands = []
+        return lambda t: "out"
+    forced = []
     for idx, se in enumerate(cfg["exc"] or []):
         f = in_force(se, d)
         if f is None or not (1 <= se["prio"] <= 16):
-            return None
+            return lambda t: None
         if f:
-            cur = latest(se["tv"], t)
-            if cur is not None and cur[1] is not None:
-                cands.append((se["prio"], idx, cur[1]))
-    if cands:
-        return min(cands)[2]
+            forced.append((se["prio"], idx, se["tv"]))
+    day = None
     if cfg["weekly"]:
         if len(cfg["weekly"]) != 7:
-            return None
-        cur = latest(cfg["weekly"][d.isoweekday() - 1], t)
-        if cur is not None and cur[1] is not None:
-            return cur[1]
-    return cfg["def"]
+            return lambda t: None
+        day = cfg["weekly"][d.isoweekday() - 1]
+
+    def at(t):
+        cands = []
+        for prio, idx, tvs in forced:
+            cur = latest(tvs, t)
+            if cur is not None and cur[1] is not None:
+                cands.append((prio, idx, cur[1]))
+        if cands:
+            return min(cands)[2]
+        if day is not None:
+            cur = latest(day, t)
+            if cur is not None and cur[1] is not None:
+                return cur[1]
+        return cfg["def"]
+    return at
+
+
+def ref_value(cfg, d, t):
+    return ref_day(cfg, d)(t)
 
 
 # ---------------------------------------------------------------- matcher streams
@@ -401,6 +438,16 @@ def year_cases(y, rng):
     return [{"op": "year", "y": y, "e": e} for e in patterns_for_year(y, rng)]
 
 
+def focus_patterns(y):
+    """the patterns whose meaning depends on the length of the month / leap years:
+    run for ALL 255 years even in the quick tier"""
+    return [{"k": "date", "p": [255, 2, 32, 255]}, {"k": "date", "p": [255, 255, 32, 255]},
+            {"k": "date", "p": [y, 14, 32, 255]}, {"k": "wnd", "v": [255, 6, 255]},
+            {"k": "wnd", "v": [2, 9, 255]}, {"k": "wnd", "v": [255, 7, 3]}, {"k": "wnd", "v": [2, 8, 255]},
+            {"k": "range", "s": [y, 2, 28, 255], "e": [y, 3, 1, 255]},
+            {"k": "range", "s": list(OPEN), "e": [y, 2, 28, 255]}]
+
+
 def days_of(y):
     d = datetime.date(1900 + y, 1, 1)
     out = []
@@ -423,9 +470,9 @@ def impl_year(case, days):
     return {"r": "ok", "bits": "".join(bits)}
 
 
-def oracle_year(ctx, case, a, days):
-    for d, b in zip(days, a["bits"]):
-        want = denotes(case["e"], d)
+def oracle_year(ctx, case, a, days, den=None):
+    for i, (d, b) in enumerate(zip(days, a["bits"])):
+        want = den[i] if den is not None else denotes(case["e"], d)
         if want is None:
             continue
         if b != ("1" if want else "0"):
@@ -436,18 +483,26 @@ def oracle_year(ctx, case, a, days):
             return
 
 
-def run_years(ctx, years, label):
+def run_years(ctx, years, label, focus=False):
     drv = core.Driver("drv_c20") if ctx.model_ok else None
-    cases, impl = [], []
+    cases, impl, dens = [], [], []
     for y in years:
         rng = ctx.sub_rng("pat-%d" % y)
         days = days_of(y)
-        for c in year_cases(y, rng):
+        for c in ([{"op": "year", "y": y, "e": e} for e in focus_patterns(y)] if focus else year_cases(y, rng)):
             a = impl_year(c, days)
-            oracle_year(ctx, c, a, days)
+            den = [denotes(c["e"], d) for d in days]
+            oracle_year(ctx, c, a, days, den)
             cases.append(c); impl.append(a)
+            dens.append("".join({True: "1", False: "0", None: "?"}[x] for x in den)
+                        if wf_entry(c["e"]) else "-" * len(days))
     if drv:
         ctx.compare_stream(label, cases, impl, drv.ask(cases), sig=lambda c, m: pat_class(c["e"]))
+        # the Lean-side declarative meaning (DenotesEntry) against the Python-side one (denotes)
+        scases = [dict(c, op="yearspec") for c in cases]
+        sref = [{"r": "ok", "bits": b} for b in dens]
+        ctx.compare_stream(label + "-spec", scases, sref, drv.ask(scases),
+                           sig=lambda c, m: pat_class(c["e"]))
     else:
         for c in cases:
             ctx.count(label)
@@ -668,15 +723,18 @@ def sig_evalday(case, m):
     return (tuple(kinds), min(ntr, 6), len(case["cfg"]["exc"] or []))
 
 
-def oracle_evalday(ctx, case, res, d):
+def oracle_evalday(ctx, case, res, d, wants=None):
     """value = BACnet rule; next transition strictly later; nothing changes before it"""
     cfg, times = case["cfg"], case["times"]
     where = {"stream": "evalday", "case": {k: case[k] for k in ("op", "cfg", "d")}}
-    if ref_value(cfg, d, (0, 0, 0, 0)) is None:
+    if wants is None:
+        at = ref_day(cfg, d)
+        wants = [at(t) for t in times]
+    if wants and wants[0] is None:
         return
     prev_i = None
     for i, (t, r) in enumerate(zip(times, res)):
-        want = ref_value(cfg, d, t)
+        want = wants[i]
         if isinstance(r, dict):
             ctx.fail("eval-raised", where, "eval%r raised %s on a valid configuration" % (tuple(t), r["err"]), time=list(t))
             return
@@ -709,7 +767,7 @@ def oracle_evalday(ctx, case, res, d):
 
 
 def run_evalday(ctx, rng, n_cfg, n_days, label="evalday"):
-    cases, impl = [], []
+    cases, impl, wants = [], [], []
     for _ in range(n_cfg):
         focus = D1900 + datetime.timedelta(days=rng.choice([rng.randrange(0, 93138), rng.randrange(25567, 60000)]))
         if rng.random() < 0.1:      # around a leap day / year end
@@ -727,15 +785,25 @@ def run_evalday(ctx, rng, n_cfg, n_days, label="evalday"):
             d = focus + datetime.timedelta(days=k)
             c = {"op": "evalday", "cfg": cfg, "d": list(tup(d)), "times": [list(t) for t in times]}
             res = [real.eval(c["d"], t) for t in times]
-            oracle_evalday(ctx, c, res, d)
+            at = ref_day(cfg, d)
+            w = [at(t) for t in times]
+            wants.append(w)
+            oracle_evalday(ctx, c, res, d, w)
             cases.append(c); impl.append({"r": "ok", "res": res})
         real.close()
-    finish_eval(ctx, label, cases, impl)
+    finish_eval(ctx, label, cases, impl, spec=wants)
 
 
-def finish_eval(ctx, label, cases, impl, sig=sig_evalday):
+def finish_eval(ctx, label, cases, impl, sig=sig_evalday, spec=None):
     if ctx.model_ok:
         ctx.compare_stream(label, cases, impl, core.Driver("drv_c20").ask(cases), sig=sig)
+        if spec is not None:
+            # the Lean-side rule (specValue) and the theorems' hypotheses against the Python-side rule
+            scases = [dict(c, op="specday") for c in cases]
+            sref = [{"r": "ok", "hyp": True, "res": w} for w in spec]
+            ctx.compare_stream(label + "-spec", scases, sref, core.Driver("drv_c20").ask(scases),
+                               sig=lambda c, m: ("spec",) + sig_evalday(c, {"res": [
+                                   None if v == "out" else [v, 0] for v in m.get("res") or []]}))
     else:
         for c in cases:
             ctx.count(label)
@@ -985,15 +1053,32 @@ def sig_run(case, m):
     return (shape, kinds, org, min(len(steps) // 8, 5))
 
 
-def run_runs(ctx, rng, n, label="run", cases=None):
-    cases = cases if cases is not None else [fix_chain(gen_run(rng, ctx.quick)) for _ in range(n)]
+def gen_bad_run(rng):
+    """timer run of a malformed configuration: correspondence of the error paths only"""
+    day0 = rng.randrange(25567 + 365, 92000)
+    focus = D1900 + datetime.timedelta(days=day0)
+    cfg, kind = gen_bad_cfg(rng, focus)
+    start = (day0 * 86400 + rng.randrange(86400)) * 1000000
+    return {"op": "run", "cfg": cfg, "start": start, "until": start + 2 * 86400 * 1000000, "pv0": PV0,
+            "fuel": 400, "changes": [], "kind": kind}
+
+
+def run_runs(ctx, rng, n, label="run", cases=None, bad=False):
+    if cases is None:
+        cases = [gen_bad_run(rng) if bad else fix_chain(gen_run(rng, ctx.quick)) for _ in range(n)]
     impl = []
     for c in cases:
         a, fault = run_real(c)
-        oracle_run(ctx, c, a["steps"], fault)
+        if bad:
+            c["cfg"]["fault"] = fault          # reliability is read from the real object, not modelled
+        else:
+            oracle_run(ctx, c, a["steps"], fault)
         impl.append(a)
     if ctx.model_ok:
-        ctx.compare_stream(label, cases, impl, core.Driver("drv_c20").ask(cases), sig=sig_run)
+        ctx.compare_stream(label, cases, impl, core.Driver("drv_c20").ask(cases),
+                           sig=(lambda c, m: (c["kind"], c["cfg"]["fault"], tuple(sorted(set(
+                               str(st[4]) for st in m.get("steps") or [])))))
+                           if bad else sig_run)
     else:
         for c in cases:
             ctx.count(label)
@@ -1051,6 +1136,8 @@ def shard_eval(ctx, spec):
         run_evalday(ctx, rng, n, 4)
     elif kind == "evalbad":
         run_evalbad(ctx, rng, n)
+    elif kind == "runbad":
+        run_runs(ctx, rng, n, label="runbad", bad=True)
     else:
         run_runs(ctx, rng, n)
 
@@ -1063,16 +1150,18 @@ def run(ctx):
         run_cal(ctx, sorted(set([0, 4, 100, 200, 254, 70, 99] + [rng.randrange(255) for _ in range(8)])))
         run_now(ctx, rng)
         run_years(ctx, [(ctx.seed * 37 + 100) % 255], "year")
+        run_years(ctx, list(range(255)), "year-monthlen", focus=True)
         run_evalday(ctx, rng, 110, 2)
         run_evalbad(ctx, rng, 120)
         run_runs(ctx, rng, 60)
+        run_runs(ctx, rng, 40, label="runbad", bad=True)
     else:
         run_cal(ctx, list(range(255)))
         run_now(ctx, rng)
         years = list(range(255))
         core.run_shards(ctx, "harness.c20", "shard_years", [years[i::32] for i in range(32)])
         specs = [("evalday", i, 120) for i in range(16)] + [("evalbad", i, 250) for i in range(8)] + \
-                [("run", i, 150) for i in range(16)]
+                [("run", i, 150) for i in range(16)] + [("runbad", i, 200) for i in range(4)]
         core.run_shards(ctx, "harness.c20", "shard_eval", specs)
         ctx.exhaustive = True
         ctx.extra["exhaustive_years"] = "1900..2154 x every pattern class"
